@@ -36,6 +36,7 @@ KINDS = ["obj", "archive", "thin", "shared", "lstatic", "lshared"]
 VIAS = ["cmd", "cmd", "script", "nested", "rsp"]
 SPELLS = ["rel", "abs", "dot", "dotdot"]
 IGNORED_KINDS = {"response-file", "retain-symbols-file"}
+OPTION_FILE_KINDS = ("version-script", "export-list", "retain-symbols-file", "linker-script-T")
 KNOWN_KIND_SIGS = {"thin-archive": "omitted:thin-archive", "version-script": "omitted:version-script",
                    "export-list": "omitted:export-list"}
 
@@ -85,7 +86,9 @@ class C25(Check):
         })
         return st.fixed_dictionaries({
             "providers": st.lists(prov, min_size=1, max_size=6),
-            "version_script": st.booleans(),
+            # True = an ordinary version script; "empty" = a zero-length file, "comment" = only a comment
+            # (both parse to "no versions", as generated per-configuration scripts sometimes are)
+            "version_script": st.sampled_from([False, False, True, True, "empty", "comment"]),
             "export": st.sampled_from(["none", "none", "dynamic-list", "export-dynamic-symbol-list"]),
             "retain": st.sampled_from([False, False, True]),
             "tscript": st.sampled_from([False, False, False, True]),
@@ -108,7 +111,7 @@ class C25(Check):
         os.makedirs(os.path.join(w, "mem"))
         kind_of = {}      # canonical path -> kind label
         provs = case["providers"]
-        shared_out = case["shared_out"] or case["version_script"]
+        shared_out = bool(case["shared_out"] or case["version_script"])
 
         def reg(path, kind):
             kind_of[os.path.realpath(os.path.join(w, path))] = kind
@@ -220,7 +223,8 @@ class C25(Check):
         if shared_out:
             args.insert(0, "-shared")
         if case["version_script"]:
-            tools.write(os.path.join(w, "v.ver"), "VERS_1 { global: _start; p*; local: *; };\n")
+            tools.write(os.path.join(w, "v.ver"), {"empty": "", "comment": "/* no versions in this configuration */\n"}.get(
+                case["version_script"], "VERS_1 { global: _start; p*; local: *; };\n"))
             reg("v.ver", "version-script")
             args.append("--version-script=v.ver")
         if case["export"] != "none":
@@ -249,7 +253,8 @@ class C25(Check):
         meta = os.path.join(ctx.dir, "m")
         os.makedirs(meta)
         tf = os.path.join(meta, "strace.txt")
-        res = hist.run_all(["strace", "-f", "-s", "4096", "-o", tf, "-e", "trace=open,openat,openat2", core.WILD, *args],
+        res = hist.run_all(["strace", "-f", "-s", "4096", "-o", tf, "-e", "trace=open,openat,openat2,stat,lstat,newfstatat,statx",
+                            core.WILD, *args],
                            cwd=w, env=hist.clean_env(), timeout=240)
         if res.timed_out:
             raise Inconclusive("wild (under strace) timed out")
@@ -273,6 +278,12 @@ class C25(Check):
             if not full.startswith(wreal + "/") or full in excluded or not os.path.isfile(full):
                 continue
             R[full] = kind_of.get(full, "unclassified")
+        # An option file named on the command line whose metadata the link inspected was consulted as well
+        # (e.g. its length decides what the link does), even if it was never opened.
+        for path in hist.parse_strace_stats(st_text):
+            full = os.path.realpath(os.path.join(w, path))
+            if kind_of.get(full) in OPTION_FILE_KINDS and full not in excluded and os.path.isfile(full):
+                R.setdefault(full, kind_of[full])
         if kind_of[os.path.realpath(os.path.join(w, "u.o"))] and os.path.realpath(os.path.join(w, "u.o")) not in R:
             raise Inconclusive("strace ground truth does not even contain the main object")
 
@@ -334,7 +345,7 @@ class C25(Check):
         info["nontrivial"] = any(k != "object" for k in R.values())
         info["key"] = ";".join(sorted(f"{p['kind']},{p['via']},{int(p['used'])},{p['spell']},{int(p['twice'])}"
                                       for p in provs)) + \
-            f"|{int(case['version_script'])}{case['export']}{int(case['retain'])}{int(case['tscript'])}{int(shared_out)}"
+            f"|{case['version_script']}{case['export']}{int(case['retain'])}{int(case['tscript'])}{int(shared_out)}"
         return info
 
 
